@@ -106,6 +106,14 @@ class Facade:
         return wrapped
 
     @property
+    def random(self):
+        if Engine.cur is None:
+            return np.random
+        from vf.stubs.rng import FakeRandomModule
+
+        return FakeRandomModule
+
+    @property
     def pi(self):
         from vf import uf
 
